@@ -183,5 +183,25 @@ Proof.
   rewrite le_val_le_bytes_small by exact H. reflexivity.
 Qed.
 
+(* read_exact with the length given as N (never converts a huge untrusted N to nat) *)
+Definition read_exactN (n : N) (bs : bytes) : option (bytes * bytes) :=
+  if (n <=? N.of_nat (length bs))%N then Some (firstn (N.to_nat n) bs, skipn (N.to_nat n) bs) else None.
+
+Lemma read_exactN_spec n bs a r : read_exactN n bs = Some (a, r) -> bs = a ++ r /\ N.of_nat (length a) = n.
+Proof.
+  unfold read_exactN. destruct (n <=? N.of_nat (length bs))%N eqn:E; [|discriminate].
+  intros H; inversion H; subst. split.
+  - symmetry; apply firstn_skipn.
+  - rewrite firstn_length_le by lia. lia.
+Qed.
+
+Lemma read_exactN_app a r : read_exactN (N.of_nat (length a)) (a ++ r) = Some (a, r).
+Proof.
+  unfold read_exactN. rewrite app_length.
+  replace (_ <=? _)%N with true by lia.
+  rewrite Nat2N.id, firstn_app, Nat.sub_diag, firstn_all, skipn_app, Nat.sub_diag, skipn_all. cbn.
+  rewrite app_nil_r. reflexivity.
+Qed.
+
 (* repeat a byte / zero padding *)
 Definition zeros (n : nat) : bytes := repeat x00 n.
